@@ -404,8 +404,13 @@ def check_generated(chk, drv, g, protos, label, src="generated"):
                 ex = expected_field(pool, m, f)
                 reg = mreg | ex["region"]
                 earlier = {Naming.fld(x.name) for x in m.field[:fi_ + 1]} & SHADOWABLE
-                if earlier & set(re.findall(r"[A-Za-z_]+", ",".join(ex["meta"].split(",")[6:]))):
-                    reg = reg | {"builtin-shadowed"}
+                ann_txt = ",".join(ex["meta"].split(",")[6:])
+                if earlier & set(re.findall(r"[A-Za-z_]+", ann_txt)):
+                    # D33 is about COMPOSITE annotations (Dict[str, …], Optional[float], List[int]) and datetime / timedelta:
+                    # a PLAIN builtin annotation of a LATER field is written `builtins.<type>` by the plugin and works
+                    # (seed C03-h lost exactly that), so it is no part of the known class
+                    plain_later = ann_txt in (SHADOWABLE - {"datetime", "timedelta"}) and Naming.fld(f.name) != ann_txt
+                    reg = reg | ({"builtin-shadowed-plain"} if plain_later else {"builtin-shadowed"})
                 w = "%s field %s.%s" % (where, full, f.name)
                 df = dfs.get(Naming.fld(f.name))
                 if df is None:
@@ -483,7 +488,7 @@ def check_generated(chk, drv, g, protos, label, src="generated"):
                 if t is None:
                     continue
                 ex, got, reg = t
-                if reg & {"field-name-collision", "builtin-shadowed"} or "Field(name=" in got:
+                if reg & {"field-name-collision", "builtin-shadowed", "builtin-shadowed-plain"} or "Field(name=" in got:
                     # Python's class-scope shadowing / field replacement is not part of the model (D33: the evaluated hint
                     # contains a dataclass Field object where a builtin type was meant — the observation itself shows it)
                     chk.count("corr_skipped_in_known_region")
